@@ -543,6 +543,8 @@ def gen_recv_ops(rng, stream, alpha, nops, want_recv=True):
 
 def rand_payload(rng, full=False):
     n = rng.choice([0, 1, 2, 3, 5, 9, 10, 11, 17])
+    if full and rng.random() < 0.06:
+        n = rng.choice([99, 100, 101, 128])        # three-digit size prefixes
     return [rng.choice([rng.randrange(256), 58, 44, 48, 49, 97]) if full else rng.choice([97, 98])
             for _ in range(n)]
 
@@ -610,7 +612,7 @@ def gen_exhaustive_family(rng, tier):
 
 
 def gen_ns(rng, tier):
-    wmax = rng.choice([5, 9, 10, 11, 99, 100, 4096])
+    wmax = rng.choice([5, 9, 10, 11, 99, 100, 999, 4096])
     nw = rng.randint(0, 4)
     wops = []
     for _ in range(nw):
@@ -639,7 +641,7 @@ def gen_ns(rng, tier):
     if wops and rng.random() < 0.2:
         wops.insert(rng.randrange(len(wops) + 1), ["flush"])
     return {"kind": "ns", "wmax": wmax, "wscript": wscript,
-            "wops": wops, "rmax": rng.choice([5, 9, 10, 11, 99, 100, 4096, 4096]), "cuts": cuts, "junk": junk,
+            "wops": wops, "rmax": rng.choice([5, 9, 10, 11, 99, 100, 101, 999, 4096, 4096]), "cuts": cuts, "junk": junk,
             "rops": rops, "retry": rng.random() < 0.8}
 
 
